@@ -1329,7 +1329,11 @@ XPathProcessorImpl::UnaryExpr()
 
     if(tokenIs(XalanUnicode::charHyphenMinus) == true)
     {
-        nextToken();
+        // Like the binary operators, a unary minus needs an operand.
+        if (nextToken() == false)
+        {
+            error(XalanMessages::ExpectedToken);
+        }
 
         m_expression->insertOpCode(XPathExpression::eOP_NEG,
                                    opPos);
